@@ -14,10 +14,10 @@ N_QUICK, N_THOROUGH = 90, 3000
 
 
 def run(ctx, replay=None):
-    from checks import fuzz_phase
+    from checks import fuzz_phase, wfail_phase
     return pc.run_property(ctx, "C07", pc.mon_c07, GEN, N_QUICK, N_THOROUGH, replay=replay, rule=RULE,
                            assumptions=[pc.PFCP_NOTE, "byte-level stream: structure-aware mutations (every leaf IE x flag octet x "
                                         "boundary value x tail length systematically, plus random ones) of valid messages, each with its "
                                         "own sequence number, after a valid prefix, against the model data plane and against the REAL gtp5g "
                                         "driver over the simulated kernel; validation, not proof"],
-                           extra_phase=fuzz_phase.phase, directed=pc.directed_c05)
+                           extra_phase=wfail_phase.both(wfail_phase.phase("C07"), fuzz_phase.phase), directed=pc.directed_c05)
